@@ -148,15 +148,25 @@ def bridgeRun (args : List String) : String :=
       match args.find? (·.startsWith "cfg,"), ruleToks.mapM parseRule with
       | some ct, some rules => parseCfg ct rules
       | _, _ => none
-  match cfg, pktToks.mapM parsePkt with
-  | some c, some pkts =>
-    let ins := pkts.map (·.1)
-    let outs := forwardAll c [] ins
-    let fin := runAll c [] ins
-    let shown := (outs.zip (pkts.map (·.2))).map (fun (o, sent) =>
-      if sent then (if o.video then "v:" else "a:") ++ showPkt o.pkt else "drop")
-    " ".intercalate (shown ++ [showStreams fin])
-  | _, _ => "bad-args"
+  -- `reset` = the bridge is installed again (`bridge_rewrite_rules_to…` builds a new `RewriteBridge`): the stream
+  -- table starts empty (`reinstalled`)
+  let toks := args.filter (fun a => a.startsWith "k," || a = "reset")
+  match cfg with
+  | none => "bad-args"
+  | some c =>
+    let rec go (ss : Streams) (ts : List String) (acc : List String) : Option (List String × Streams) :=
+      match ts with
+      | [] => some (acc.reverse, ss)
+      | t :: rest =>
+        if t = "reset" then go reinstalled rest acc
+        else match parsePkt t with
+          | none => none
+          | some ((p, a, b), sent) =>
+            let r := forward c ss p a b
+            go r.1 rest ((if sent then (if r.2.video then "v:" else "a:") ++ showPkt r.2.pkt else "drop") :: acc)
+    match go [] toks [] with
+    | some (shown, fin) => " ".intercalate (shown ++ [showStreams fin])
+    | none => "bad-args"
 
 end bridge
 
